@@ -125,6 +125,20 @@ def run_case(seed, tier, rec, st):
                 fields.append({"n": "nxt", "t": ("opt", ("self",), "Optional"), "dmode": "default", "dseed": 0, "const_default": None})
             else:
                 fields.append({"n": "kids", "t": ("seq", "List", ("self",)), "dmode": "factory", "dseed": 0, "const_default": []})
+        if F["natives"] and rng.random() < 0.25:
+            # a WRITE-only registration (it keeps the value as it is) for a type the format handles natively, on a level
+            # above the format dialect: it says nothing about reading, so the format's own rule still reads the type
+            srcname = {"bytes": "bytes", "bytearray": "bytearray", "datetime": "datetime.datetime", "date": "datetime.date", "time": "datetime.time", "uuid": "uuid.UUID"}
+            present = sorted(k for k in F["natives"] if any(n[0] == k for fld in fields for n in common.deep_nodes(fam, fld["t"])))
+            if present:
+                fam.exec_src("def _keep(x):\n    return x\n")
+                reg = "{" + ", ".join(f"{srcname[k]}: {{'serialize': _keep}}" for k in present) + "}"
+                if rng.random() < 0.5:
+                    wcfg["serialization_strategy"] = reg
+                else:
+                    fam.exec_src(f"class WriteOnlyD(Dialect):\n    serialization_strategy = {reg}\n")
+                    wcfg["dialect"] = "WriteOnlyD"
+                rec.count("write_only_registration_above_format_dialect")
         call_dialect = rng.random() < 0.3
         if call_dialect:
             # the class accepts a call dialect; one that customises nothing is passed to the format methods AND to
@@ -136,7 +150,7 @@ def run_case(seed, tier, rec, st):
         t = ("dc", wname)
         ref = Ref(fam)
         hexcodec = None
-        if fname == "msgpack" and rng.random() < 0.4:
+        if fname == "msgpack" and rng.random() < 0.4 and "serialization_strategy" not in wcfg and "dialect" not in wcfg:
             # codec objects with a user dialect that takes over a type the format keeps native (bytes as hex text):
             # encoder and decoder must both put the user's registration ABOVE the format's
             fam.exec_src("class HexD(Dialect):\n    serialization_strategy = {bytes: {'serialize': bytes.hex, 'deserialize': bytes.fromhex}}\n")
@@ -372,6 +386,7 @@ def orjson_config_options_case(rng, rec):
         import datetime
         order = list(range(n))
         rng.shuffle(order)
+        kw_first = [rng.random() < 0.5 for _ in range(n)]
         ident = lambda x, **kw: x
         for rnd in range(2):
             for i in order:
@@ -379,6 +394,18 @@ def orjson_config_options_case(rng, rec):
                 cls = getattr(fam.module, f"O{i}")
                 v = cls(zz=rnd, aware=datetime.datetime(2021, 5, 6, 7, 8, 9, 10, tzinfo=datetime.timezone.utc))
                 declared = eval(chosen[i], {"orjson": orjson}) if chosen[i] else 0
+                if rnd == 0 and kw_first[i]:
+                    # the very first call of this class passes the options by keyword (for a lazy class: the compiling call)
+                    try:
+                        kdoc = v.to_jsonb(orjson_options=orjson.OPT_INDENT_2 | orjson.OPT_SORT_KEYS)
+                        kexp = orjson.dumps(v.to_jsonb(encoder=ident), option=orjson.OPT_INDENT_2 | orjson.OPT_SORT_KEYS)
+                    except Exception as ex:
+                        kdoc, kexp = f"{type(ex).__name__}: {ex}"[:200], None
+                    if kdoc != kexp:
+                        rec.violation("orjson:config-options:keyword-options-ignored-on-the-first-call", {"source": src, "class": f"O{i}", "document": repr(kdoc)[:300],
+                                      "expected": repr(kexp)[:300]}, {"format": "orjson", "scenario": "config-orjson-options"})
+                    else:
+                        rec.count("orjson_keyword_options_on_first_call_ok")
                 try:
                     doc = v.to_jsonb()
                     exp = orjson.dumps(v.to_jsonb(encoder=ident), option=declared)
